@@ -48,3 +48,41 @@ reg("C07",
     "10^k / silence cases; monotonicity; selector errors; plus a passive monitor on every verdict taken inside split().",
     "Trusts: math.log10 accuracy (<1e-12) for the model. If the energy hook is bypassed by a refactoring, exact cases still decide >= vs >.",
     "runtime monitoring: reference model + hooked energy value + passive in-situ monitor", "DESIGN.md section 7 C07")
+reg("C08",
+    "History monitor: an instrumented source timestamps (in reads, logical time) the instant each token reaches the consumer "
+    "in generator and callback mode; latency bound, single end-of-stream request, mode agreement and prefix consistency over "
+    "all cut points are checked on the C01 workload; split() laziness is observed on counting Buffer/Raw/Wave sources and a "
+    "counting stdin.",
+    "Trusts: logical time = source reads. List mode is only compared with the other modes.",
+    "runtime monitoring: recorded delivery history vs latency/prefix oracle", "DESIGN.md section 7 C08")
+reg("C10",
+    "Reference-model monitor (FRAME) on the full read() sequence of real AudioReaders incl. reads past the end, over 9 source "
+    "kinds, formats, block/hop/max_read on and off boundaries, with a bounded-exhaustive small scope on a bytes source.",
+    "Trusts: FRAME model; block_size may be the exact or the IEEE floor; zero-sample hops not generated.",
+    "runtime monitoring: reference model vs observed read() sequence", "DESIGN.md section 7 C10")
+reg("C11",
+    "History monitor with an executable sequential model (SRC cursor) over random and bounded-exhaustive operation histories, "
+    "the same history run in lock-step on buffer, raw-file, wav-file and pipe-fed stdin sources.",
+    "Trusts: SRC model; read(0) weak oracle; sub-sample instants resolve to either neighbour.",
+    "runtime monitoring: operation histories checked against a sequential model", "DESIGN.md section 7 C11")
+reg("C16",
+    "Reference-model monitor: sample/seconds/millis slicing of real regions compared with Python list slicing of the sample "
+    "list, bounded-exhaustive for small lengths and bounds, random beyond incl. huge magnitudes; TypeError cases.",
+    "Trusts: a*rate evaluated in IEEE doubles; ties accept either neighbour.",
+    "runtime monitoring: reference model (list slicing) vs observed slices", "DESIGN.md section 7 C16")
+reg("C17",
+    "Reference-model monitor on random operand trees of + sum * / join make_silence ==, byte-level expectations, operand "
+    "snapshots before/after, error types for mismatched parameters, partial samples and assignment.",
+    "Trusts: bytes-level model. Division of empty regions not generated.",
+    "runtime monitoring: reference model (bytes algebra) vs observed results, operand snapshots", "DESIGN.md section 7 C17")
+reg("C18",
+    "Round-trip and half-trip monitor: auditok writes / stdlib reads, stdlib writes / auditok reads, eager and lazy, wav and "
+    "raw, templates, exists_ok with an audit hook on open(), load(skip,max_read) vs slicing incl. empty results, numpy export "
+    "vs struct decoding.",
+    "Trusts: stdlib wave/open/struct. Compressed formats not covered (no pydub/ffmpeg).",
+    "runtime monitoring: byte-exact oracle on files and loaded regions + sys.addaudithook", "DESIGN.md section 7 C18")
+reg("C19",
+    "History monitor on recorder histories read^k rewind read^j rewind ... with the FRAME recorder clause as oracle, over the "
+    "C10 case space plus a bounded-exhaustive core (every k and j for small sources).",
+    "Trusts: FRAME model. Zero-sample hops not generated.",
+    "runtime monitoring: operation histories checked against a reference model", "DESIGN.md section 7 C19")
